@@ -282,7 +282,8 @@ def check_star_imports(repo, res, rule):
         f = m.flow('top', top)
         top.attrs['flow'] = f
         from .exprend import from_ast
-        lit = from_ast(_ast.parse("['pub', '_listed']").body[0].value)
+        # (elements that are not string literals - a name, a call, an attribute - are legal in the display and say nothing here)
+        lit = from_ast(_ast.parse("['pub', NAME, '_listed', base.__name__, f('x'), *more]").body[0].value)
         decl = m.new('AssignedName', '__all__', (1, 0), (1, 0), lit)
         src_mod = Obj(m.cls('SourceModule'), {'_attrs': {'pub': 1, '_listed': 2, '_hidden': 3, 'other': 4, '__all__': decl}}, 'source module')
         live_all = m.new('RuntimeName', '__all__', ['exact', '_also'])
@@ -292,7 +293,11 @@ def check_star_imports(repo, res, rule):
             return src_mod if args[0] == 'src' else live_mod
         project = Obj(m.cls('Project'), {'get_nmodule': Native('get_nmodule', get_nmodule)}, 'project')
         top.attrs['_star_imports'] = [((1, 20), (1, 19), 'src', f), ((2, 20), (2, 19), 'live', f)]
-        m.it.call(m.it.getattr(top, 'resolve_star_imports'), [project], {})
+        try:
+            m.it.call(m.it.getattr(top, 'resolve_star_imports'), [project], {})
+        except InterpRaise as e:
+            return False, 'from src import * where src declares __all__ = [\'pub\', NAME, \'_listed\', base.__name__, f(\'x\'), *more] raises %s: ' \
+                'the elements of the display that are not string literals must be skipped' % e
         got = {}
         for n in f.attrs['_names']:
             got.setdefault(str(n.attrs.get('module')), set()).add(str(n.attrs['name']))
